@@ -189,6 +189,10 @@ fn names(bits: u32) -> String {
 
 pub fn run(ctx: &Ctx, rep: &mut Report) {
     let n_defs = ctx.n(960, 48000);
+    // one file path for the whole run, rewritten for every definition: what the path-based loader returns must be
+    // the classes of the file's current content
+    let dir = crate::env::ResDir::new();
+    let def_path = dir.path.join("char.def");
     for di in ctx.indices(n_defs) {
         if ctx.out_of_time() {
             rep.notes.push(format!("stopped at definition {} (time budget)", di));
@@ -230,6 +234,35 @@ pub fn run(ctx: &Ctx, rep: &mut Report) {
                     rep.count("definitions_with_overlapping_lines", 1);
                     rep.nontrivial(fnv(text.as_bytes()));
                 }
+            }
+        }
+        // the same definition through the path-based loader (same path as for the previous definition)
+        {
+            dir.write("char.def", &text);
+            match guard(|| CharacterCategory::from_file(&def_path)) {
+                Ok(Ok(cf)) => {
+                    let mut probes: Vec<u32> = ANCHORS.to_vec();
+                    for l in &lines {
+                        for d in [-1i64, 0, 1] {
+                            probes.push((l.lo as i64 + d).clamp(0, 0x10ffff) as u32);
+                            probes.push((l.hi as i64 + d).clamp(0, 0x10ffff) as u32);
+                        }
+                        probes.push(l.lo + (l.hi - l.lo) / 2);
+                    }
+                    for c in probes {
+                        if let Some(ch) = char::from_u32(c) {
+                            let exp = expected_bits(&lines, c);
+                            let got = cf.get_category_types(ch).bits();
+                            rep.count("code_points_checked_through_from_file", 1);
+                            if got != exp {
+                                rep.violation("classes", "CharacterCategory::from_file", &format!("U+{:04X}: the lines of the file give {} but {} is reported by the definition loaded from the file's path", c, names(exp), names(got)), "", scenario(&text));
+                                break;
+                            }
+                        }
+                    }
+                }
+                Ok(Err(e)) => rep.violation("order_dependence", "CharacterCategory::from_file", &format!("the definition loads from a reader but not from a file: {:?}", e), "", scenario(&text)),
+                Err(p) => rep.violation("query_panic", &p.site, &p.msg, "", scenario(&text)),
             }
         }
         // iteration over ranges agrees with the point query and tiles the code space
